@@ -353,3 +353,52 @@ package pongo2
 //@   pure as VIsBool
 //@ func (*Value).IsNil
 //@   pure as VIsNil
+
+// a template belongs to the set that compiled it; sub-templates belong to the set of the referring template
+//@ func newTemplate
+//@   ensures {C03,C11} @belongs-to-set r1 == nil ==> (r0 != nil && r0.set == set)
+//@   ensures {C01} @error-type r1 != nil ==> typeis(r1, "*Error")
+//@ func newTemplateString
+//@   ensures {C03,C11} @belongs-to-set r1 == nil ==> (r0 != nil && r0.set == set)
+//@   ensures {C01} @error-type r1 != nil ==> typeis(r1, "*Error")
+//@ func (*TemplateSet).FromFile
+//@   ensures {C03,C11} @belongs-to-set r1 == nil ==> (r0 != nil && r0.set == set)
+//@   ensures {C01} @error-type r1 != nil ==> typeis(r1, "*Error")
+//@ func (*TemplateSet).FromString
+//@   ensures {C03,C11} @belongs-to-set r1 == nil ==> (r0 != nil && r0.set == set)
+//@ func (*TemplateSet).FromBytes
+//@   ensures {C03,C11} @belongs-to-set r1 == nil ==> (r0 != nil && r0.set == set)
+//@ type Template
+//@   invariant {C03,C11} self.parent != nil ==> self.parent.set == self.set
+//@ func (*tagIncludeNode).Execute
+//@   at (*Template).ExecuteWriter requires {C03,C11} @lazily-included-template-of-same-set node.lazy ==> arg0.set == ctx.template.set
+//@ func tagIncludeParser
+//@   ensures {C03,C11} @included-template-of-same-set (r1 == nil && typeis(r0, "*tagIncludeNode") && unbox(r0, "*tagIncludeNode").tpl != nil) ==> unbox(r0, "*tagIncludeNode").tpl.set == doc.template.set
+//@ func tagSSIParser
+//@   ensures {C03,C11} @included-template-of-same-set (r1 == nil && typeis(r0, "*tagSSINode") && unbox(r0, "*tagSSINode").template != nil) ==> unbox(r0, "*tagSSINode").template.set == doc.template.set
+
+// the name handed to the set is the name written in (or evaluated by) the template, resolved relative to the referrer
+//@ func (*tagIncludeNode).Execute
+//@   at (*TemplateSet).FromFile requires {C11} @by-evaluated-name arg1 == ResolvedFor(ctx.template.set.loaders[0], ctx.template.isTplString, ctx.template.name, VString(filename))
+//@ func tagIncludeParser
+//@   at (*TemplateSet).FromFile requires {C11} @by-written-name arg1 == ResolvedFor(doc.template.set.loaders[0], doc.template.isTplString, doc.template.name, filenameToken.Val)
+//@ func tagExtendsParser
+//@   at (*TemplateSet).FromFile requires {C11} @by-written-name arg1 == ResolvedFor(doc.template.set.loaders[0], doc.template.isTplString, doc.template.name, filenameToken.Val)
+//@ func tagImportParser
+//@   at (*TemplateSet).FromFile requires {C11} @by-written-name arg1 == ResolvedFor(doc.template.set.loaders[0], doc.template.isTplString, doc.template.name, filenameToken.Val)
+//@ func tagSSIParser
+//@   at (*TemplateSet).FromFile requires {C11} @by-written-name arg1 == ResolvedFor(doc.template.set.loaders[0], doc.template.isTplString, doc.template.name, fileToken.Val)
+//@   at (*TemplateSet).resolveTemplate requires {C11} @by-written-name arg1 == doc.template && arg2 == fileToken.Val && arg0 == doc.template.set
+
+// cache entries are removed under the resolved name they were stored under
+//@ func (*TemplateSet).CleanCache
+//@   at delete requires {C20} @by-resolved-name m == set.templateCache && k == ResolvedFor(set.loaders[0], false, "", filename)
+
+// nodes that buffer their body write to the outer writer only after the body succeeded (C14: on failure the
+// unbuffered output stays a prefix of the successful output)
+//@ func (*tagFilterNode).Execute
+//@   at TemplateWriter.WriteString requires {C14} @only-after-body-succeeded lastresult("(*NodeWrapper).Execute") == nil
+//@ func (*tagSpacelessNode).Execute
+//@   at TemplateWriter.WriteString requires {C14} @only-after-body-succeeded lastresult("(*NodeWrapper).Execute") == nil
+//@ func (*tagIfchangedNode).Execute
+//@   at TemplateWriter.Write requires {C14} @only-after-body-succeeded lastresult("(*NodeWrapper).Execute") == nil
